@@ -13,5 +13,9 @@ from simkit import repo  # noqa: E402
 root = repo.setup()
 import pyjelly  # noqa: E402
 
+from simkit import mypyc_build  # noqa: E402
+
+build, note = mypyc_build.ensure_build(root)
+print(f"mypyc build of the working tree: {build or 'not available'} ({note})")
 print(f"ok: python {sys.version.split()[0]} protobuf {google.protobuf.__version__} rdflib {rdflib.__version__} "
       f"pyjelly from {os.path.dirname(pyjelly.__file__)} (repo {root})")
